@@ -311,24 +311,30 @@ func (server *Server) readRequestBody(ctx *Context) (err error) {
 			codec.ReadRequestBody(nil, nil)
 			return
 		}
-		if stream, ok := ctx.args.Interface().(SetStream); ok {
-			stream.Connect(ctx.stream)
+		stream, ok := ctx.args.Interface().(SetStream)
+		if !ok {
+			err = errors.New("can't find stream service " + ctx.ServiceMethod)
+			codec.ReadRequestBody(nil, nil)
+			return
 		}
+		stream.Connect(ctx.stream)
 	} else if ctx.upgrade.Stream == streaming {
 	} else {
+		// The method is looked up whatever the upgrade flags say: a peer may
+		// send any flag combination.
+		ctx.f = server.Funcs.GetFunc(ctx.ServiceMethod)
+		if ctx.f == nil {
+			err = errors.New("can't find service " + ctx.ServiceMethod)
+			codec.ReadRequestBody(nil, nil)
+			return
+		}
+		ctx.args = ctx.f.GetValueIn(0)
+		if ctx.args == funcs.ZeroValue {
+			err = errors.New("can't find args")
+			codec.ReadRequestBody(nil, nil)
+			return
+		}
 		if ctx.upgrade.NoRequest != noRequest {
-			ctx.f = server.Funcs.GetFunc(ctx.ServiceMethod)
-			if ctx.f == nil {
-				err = errors.New("can't find service " + ctx.ServiceMethod)
-				codec.ReadRequestBody(nil, nil)
-				return
-			}
-			ctx.args = ctx.f.GetValueIn(0)
-			if ctx.args == funcs.ZeroValue {
-				err = errors.New("can't find args")
-				codec.ReadRequestBody(nil, nil)
-				return
-			}
 			var value []byte
 			if server.noCopy {
 				value = ctx.value
@@ -344,7 +350,7 @@ func (server *Server) readRequestBody(ctx *Context) (err error) {
 				return
 			}
 		}
-		if ctx.upgrade.NoResponse != noResponse && !ctx.f.ReturnOut() {
+		if !ctx.f.ReturnOut() {
 			ctx.reply = ctx.f.GetValueIn(1)
 			if ctx.reply == funcs.ZeroValue {
 				err = errors.New("can't find reply")
@@ -398,7 +404,7 @@ func (server *Server) callService(ctx *Context) {
 
 func (server *Server) sendResponse(ctx *Context) {
 	var reply interface{}
-	if len(ctx.Error) == 0 && ctx.upgrade.NoResponse != noResponse {
+	if len(ctx.Error) == 0 && ctx.upgrade.NoResponse != noResponse && ctx.reply != funcs.ZeroValue {
 		reply = ctx.reply.Interface()
 	}
 	err := ctx.codec.WriteResponse(ctx, reply)
